@@ -231,6 +231,7 @@ func ascii(s string) string {
 }
 
 var errTable = [][2]string{
+	{"tx parse error", "undecodable"},
 	{"no transactions", "no-txs"},
 	{"too many transactions", "too-many"},
 	{"invalid transaction: index", "invalid-tx"},
